@@ -68,10 +68,22 @@ def cases(shard, nshards, seed, tier):
                 mode = "shift" if gaps or rng.random() < 0.5 else "increasing"
                 if mine():
                     yield {"family": "T3-relabel", "file": fn, "base_ops": base_ops, "twin": {"kind": "T3", "prefix": rng.choice(["Q", "a", "0"]), "mode": mode, "seed": f"{seed}:{fn}:{vi}:r{t}", "gaps": gaps}}
-    # T4: format twins
+    # T4: format twins, also after translating the table into ranges where the
+    # PDB coordinate fields are completely filled (z <= -100, x >= 1000)
     for fn in files:
         if mine():
             yield {"family": "T4-format", "file": fn, "base_ops": [], "twin": {"kind": "T4"}}
+        for t, trans in enumerate([[0.0, 0.0, -400.0], [1200.0, -300.0, 0.0], [-350.0, 2000.0, -150.0]] if tier == "thorough" else [[900.0, -350.0, -400.0], [-300.0, 1500.0, -120.0]]):
+            if mine():
+                yield {"family": "T4-format-translated", "file": fn, "base_ops": [{"op": "axisperm", "k": 0, "trans": trans}], "twin": {"kind": "T4"}}
+    # hostile identities / orders under every twin kind
+    hostile_bases = [[{"op": "icodes", "seed": "c05h1", "frac": 0.7}], [{"op": "chain-order", "seed": "c05h2", "mode": "reverse"}], [{"op": "reverse-res"}]]
+    for fn in [f for f in files if f.endswith(("1ehz-assembly-1.cif", "4WTI_1_T-P.cif", "1A1T_1_B.cif", "4qln.cif", "1E7K_1_C.cif"))]:
+        for hb in hostile_bases:
+            for tw in ({"kind": "T1", "ops": [{"op": "rigid", "seed": f"{fn}:hb", "trans": [100.0, -200.0, 300.0]}]}, {"kind": "T2", "ops": [{"op": "shuffle-atoms", "seed": f"{fn}:hb2"}]},
+                       {"kind": "T3", "prefix": "Q", "mode": "shift", "seed": f"{fn}:hb3", "gaps": True}, {"kind": "T4"}):
+                if mine():
+                    yield {"family": "hostile-base-" + hb[0]["op"], "file": fn, "base_ops": hb, "twin": tw}
         if tier == "thorough":
             for t in range(3):
                 if mine():
